@@ -7,7 +7,24 @@ for l in open(os.path.join(HERE, "properties.jsonl")):
     p = json.loads(l); TITLES[p["id"]] = p["title"]
 
 # id -> (category, technique, level text, level note, design ref)
+BFS = "explicit-state BFS over operation histories of the real object (replayed on fresh objects, canonical-state de-duplication) with a reference model as oracle"
 CHECKS = {
+ "C01": ("model_checking", BFS + "; fix-point over a finite key universe",
+         "every reachable AVL shape over 9 (quick) / 12 (thorough) keys and every MultiMap over 2-4 keys with up to 7-12 entries is reached and from each "
+         "every operation of the alphabet is executed and compared with a sorted reference, including the stated comparison bound of find",
+         "bounded key universe; internals read with -fno-access-control only for the canonical state", "DESIGN.md §4 C01"),
+ "C02": ("model_checking", BFS + "; fix-point for every (capacity x hash mode) configuration",
+         "all ordered key sets over 3-5 keys in two variables, all bucket-chain orders, capacities 1/2/3/500 and three hash modes, every operation compared with an insertion-ordered reference",
+         "bounded key universe", "DESIGN.md §4 C02"),
+ "C03": ("model_checking", BFS + "; plus exhaustive enumeration of List::sort inputs",
+         "all List value sequences up to length 3-5 in two variables, all Array (size,capacity,allocated) states up to size 12-16, all PoolList sizes; every sort input up to length 7-9 over 4 values and all permutations of 8-9 values",
+         "bounded lengths/value universes", "DESIGN.md §4 C03"),
+ "C04": ("model_checking", BFS + "; element type with instance registry + allocation ledger, self-referential alphabet",
+         "every history of the C01-C03 spaces extended by self-assignment and own-element arguments is executed with lifetime-tracked elements; leaks, double destruction, touch-after-destroy and shallow copies are decided on every transition",
+         "bounded universes as C01-C03", "DESIGN.md §4 C04"),
+ "C05": ("model_checking", BFS + "; address book of every live element checked after every transition",
+         "in every reachable state of the C01-C03 spaces every live element is re-obtained by iteration and find and must be at the address recorded at its insertion",
+         "bounded universes as C01-C03", "DESIGN.md §4 C05"),
  "C17": ("exploration", "exhaustive enumeration of message length x chunking shapes on the real code vs hashlib/hmac",
          "every length 0..300 (600 thorough) x 4 content generators, every 2-way and (bounded) 3-way chunking, hasher reuse, "
          "HMAC for every key length 0..200: the padding/carry/key-normalisation logic depends on lengths only, so the shape space is exhausted",
